@@ -125,7 +125,9 @@ func Choice(name string, n int) int {
 
 type assumeFailed struct{}
 
-func (assumeFailed) Error() string { return "assumeFailed: the run left the region the harness assumes" }
+func (assumeFailed) Error() string {
+	return "assumeFailed: the run left the region the harness assumes"
+}
 
 // Assume: natively an assumption that does not hold means the replay left the recorded path.
 func Assume(c bool) {
@@ -180,18 +182,22 @@ func SetOwner(tag string)                       {}
 func Freeze(tag string, on bool)                {}
 func FreezePtr(p unsafe.Pointer, on bool)       {}
 func IsOwner(p unsafe.Pointer, tag string) bool { return true }
-func BlockID(p unsafe.Pointer) uint64           { return uint64(uintptr(p)) &^ 0 }
-func BlockOff(p unsafe.Pointer) uint64          { return 0 }
-func BlockSize(p unsafe.Pointer) uint64         { return 0 }
-func BlockNoScan(p unsafe.Pointer) bool         { return false }
-func BlockElemSize(p unsafe.Pointer) uint64     { return 0 }
-func BlockTypeName(p unsafe.Pointer) string     { return "" }
-func AllocBytes() uint64                        { return 0 }
-func ResetAllocBytes()                          {}
-func Steps() uint64                             { return 0 }
-func PoolPolicy(s string)                       {}
-func Note(s string)                             {}
-func Phase(s string)                            {}
+
+// IsStatic: p points into immutable static data (string literals). Natively: the gc toolchain on linux/amd64
+// places static data far below the heap arena, which starts at 0xc000000000.
+func IsStatic(p unsafe.Pointer) bool        { return uintptr(p) < 0xc000000000 }
+func BlockID(p unsafe.Pointer) uint64       { return uint64(uintptr(p)) &^ 0 }
+func BlockOff(p unsafe.Pointer) uint64      { return 0 }
+func BlockSize(p unsafe.Pointer) uint64     { return 0 }
+func BlockNoScan(p unsafe.Pointer) bool     { return false }
+func BlockElemSize(p unsafe.Pointer) uint64 { return 0 }
+func BlockTypeName(p unsafe.Pointer) string { return "" }
+func AllocBytes() uint64                    { return 0 }
+func ResetAllocBytes()                      {}
+func Steps() uint64                         { return 0 }
+func PoolPolicy(s string)                   {}
+func Note(s string)                         {}
+func Phase(s string)                        {}
 
 // Param: per-job integer parameter (engine: job cfg; native: VERIF_PARAM_<name>).
 func Param(name string) int {
